@@ -1,1 +1,1 @@
-AREAS = ["amount", "replfetcher", "codec", "quote", "service"]
+AREAS = ["amount", "replfetcher", "codec", "quote", "service", "recordstore"]
